@@ -22,7 +22,6 @@ from typing import Any, Callable, Iterable, Sequence
 
 ROOT = Path(__file__).resolve().parent.parent
 LEAN = ROOT / "lean"
-DRIVER = LEAN / ".lake" / "build" / "bin" / "opmdriver"
 EVIDENCE = ROOT / "evidence"
 REPLAYS = ROOT / "replays"
 CORPUS = ROOT / "corpus"
@@ -44,6 +43,13 @@ TRUSTED_BASE = [
 
 class Infra(Exception):
     """Infrastructure failure: exit 2, never a VIOLATION."""
+
+
+class DriverBroken(Infra):
+    """The model driver does not build or crashed (e.g. a regenerated table broke a model)."""
+
+
+_built_drivers: set[str] = set()
 
 
 def tier() -> str:
@@ -120,10 +126,10 @@ def lake_build(targets: Sequence[str], timeout: float = 1500) -> tuple[bool, str
     return p.returncode == 0, log
 
 
-def ensure_driver() -> None:
-    ok, log = lake_build(["opmdriver"])
-    if not ok or not DRIVER.exists():
-        raise Infra("cannot build model driver:\n" + log[-3000:])
+def driver_modules(model: str) -> list[str]:
+    """Modules imported by Driver/<model>.lean (they must be built before `lean --run`)."""
+    src = (LEAN / "Driver" / f"{model}.lean").read_text()
+    return re.findall(r"^import\s+(\S+)", src, re.M)
 
 
 def strip_comments(src: str) -> str:
@@ -216,9 +222,15 @@ def drive(model: str, cases: Sequence[Sequence[str]], timeout: float = 900) -> l
             if "\n" in ln or "\r" in ln:
                 raise Infra("newline inside op line")
             lines.append(ln)
-    p = _run([str(DRIVER), model], LEAN, timeout, input="\n".join(lines) + "\n")
+    if model not in _built_drivers:
+        ok, log = lake_build(driver_modules(model))
+        if not ok:
+            raise DriverBroken(f"model driver {model} does not build: " + log[-1500:])
+        _built_drivers.add(model)
+    p = _run(["lake", "env", "lean", "--run", f"Driver/{model}.lean"], LEAN, timeout,
+             input="\n".join(lines) + "\n")
     if p.returncode != 0:
-        raise Infra(f"driver failed rc={p.returncode}: {p.stderr[-2000:]}")
+        raise DriverBroken(f"driver {model} failed rc={p.returncode}: {(p.stdout + p.stderr)[-2000:]}")
     out = p.stdout.split("\n")
     if out and out[-1] == "":
         out.pop()
@@ -329,10 +341,10 @@ class Check:
     def prove(self, module: str, required: Sequence[str] = (), extra_targets: Sequence[str] = ()) -> bool:
         """Build the property module, audit every theorem in it. `required` theorems must exist."""
         targets = [module, *extra_targets]
-        self.checker_cmd = (f"cd lean && lake build {' '.join(targets)} opmdriver && "
+        self.checker_cmd = (f"cd lean && lake build {' '.join(targets)} && "
                             f"lake env lean OPM/Audit/{self.id}.lean  (#print axioms on every theorem; "
                             f"forbidden-token grep over lean/OPM, lean/Driver)")
-        ok, log = lake_build([*targets, "opmdriver"])
+        ok, log = lake_build([*targets, "Driver.Loop"])
         path = LEAN / (module.replace(".", "/") + ".lean")
         if not path.exists():
             self.proof_broken.append(f"property module {module} missing")
@@ -345,8 +357,6 @@ class Check:
         if not ok:
             errs = [ln for ln in log.splitlines() if "error" in ln.lower()][:8]
             self.proof_broken.append("lake build failed: " + " | ".join(errs or [log[-400:]]))
-            if not DRIVER.exists():
-                raise Infra("driver missing and build failed:\n" + log[-3000:])
             return False
         hits = forbidden_hits(lean_sources())
         if hits:
@@ -378,7 +388,6 @@ class Check:
                    impl_timeout: float = 20.0) -> tuple[list[list[str]], list[list[str]]]:
         """Run impl and model on the same op lines, record disagreements.
         Returns (impl outputs, model outputs)."""
-        ensure_driver_once()
         all_lines = [lines(c) for c in cases]
         impl_out: list[list[str]] = []
         for c in cases:
@@ -387,7 +396,12 @@ class Check:
             except ImplTimeout as e:
                 o = [f"TIMEOUT {e}"]
             impl_out.append([str(x) for x in o])
-        model_out = drive(model, all_lines)
+        try:
+            model_out = drive(model, all_lines)
+        except DriverBroken as e:
+            self.proof_broken.append(f"stream {stream}: {str(e)[:600]}")
+            self.evaluations += len(cases)
+            return impl_out, []
         st = self.streams.setdefault(stream, {"cases": 0, "lines": 0, "disagreements": 0})
         for c, io, mo in zip(cases, impl_out, model_out):
             st["cases"] += 1
@@ -521,17 +535,6 @@ class Check:
             "violations": 0 if rc == 0 else max(1, len(self.failures)),
         }
         (EVIDENCE / f"{self.id}.json").write_text(json.dumps(ev, indent=1, default=str) + "\n")
-
-
-_driver_ready = False
-
-
-def ensure_driver_once() -> None:
-    global _driver_ready
-    if not _driver_ready:
-        if not DRIVER.exists():
-            ensure_driver()
-        _driver_ready = True
 
 
 def _h(x: Any) -> str:
